@@ -28,6 +28,8 @@ def run(ctx):
         checked_utf8(ctx, prog, cfg)
         concat(ctx, prog)
     expansions(ctx)
+    from .. import macrolint, facts
+    macrolint.hygiene_rule(ctx, ["string_concat", "string_join", "slice_concat", "str_from_iter"], facts.REPO)
     ctx.floor("CSTR", 7)
     ctx.floor("CONCAT", 14)
     ctx.floor("EXPAND", 3)
